@@ -663,7 +663,74 @@ def typed_empty(shape, dtype=None, fill=None):
     return a.view(SArr)
 
 
-class TypedNumpy:
+def _symbolic_array(a):
+    return isinstance(a, numpy.ndarray) and (isinstance(a, SArr) or a.dtype == object)
+
+
+class Conversions:
+    """what numpy's conversion / *_like functions do to an array of symbols: a float dtype (or none) leaves the
+    cells alone, an integer dtype truncates them, *_like keeps the kind of its model (a truncating buffer for an
+    integer-typed model).  Mixed into the per-module numpy proxies: code under test may convert its inputs."""
+
+    def _convert(self, a, dtype, copy):
+        if _CUR is not None and isinstance(a, (list, tuple)):
+            try:
+                b = numpy.empty(numpy.shape(a), dtype=object)
+                b[...] = a
+                if any(is_sym(v) for v in b.ravel()):
+                    a = b.view(SArr)
+            except Exception:  # ragged input: numpy's own business
+                pass
+        if _CUR is not None and _symbolic_array(a):
+            kind = None if dtype is None else numpy.dtype(dtype).kind
+            if kind in (None, "f", "O"):
+                out = numpy.ndarray.copy(a) if copy else a
+                return out.view(IntArr) if (isinstance(a, IntArr) and kind is None) else out.view(SArr)
+            if kind in "iu":
+                return int_array([strunc(v) for v in numpy.ndarray.ravel(a)]).reshape(a.shape)
+        return None
+
+    def asarray(self, a, dtype=None, **kw):
+        r = self._convert(a, dtype, False)
+        return numpy.asarray(a, dtype=dtype, **kw) if r is None else r
+
+    def ascontiguousarray(self, a, dtype=None, **kw):
+        r = self._convert(a, dtype, False)
+        return numpy.ascontiguousarray(a, dtype=dtype, **kw) if r is None else r
+
+    def asfortranarray(self, a, dtype=None, **kw):
+        r = self._convert(a, dtype, False)
+        return numpy.asfortranarray(a, dtype=dtype, **kw) if r is None else r
+
+    def _like(self, a, fill, dtype, shape=None):
+        if _CUR is not None and _symbolic_array(a):
+            shape = a.shape if shape is None else shape
+            if dtype is not None:
+                return typed_empty(shape, dtype, fill=fill)
+            out = numpy.empty(shape, dtype=object)
+            if fill is not None:
+                out[...] = fill
+            return out.view(IntArr if isinstance(a, IntArr) else SArr)
+        return None
+
+    def zeros_like(self, a, dtype=None, **kw):
+        r = self._like(a, 0, dtype, kw.get("shape"))
+        return numpy.zeros_like(a, dtype=dtype, **kw) if r is None else r
+
+    def ones_like(self, a, dtype=None, **kw):
+        r = self._like(a, 1, dtype, kw.get("shape"))
+        return numpy.ones_like(a, dtype=dtype, **kw) if r is None else r
+
+    def empty_like(self, a, dtype=None, **kw):
+        r = self._like(a, None, dtype, kw.get("shape"))
+        return numpy.empty_like(a, dtype=dtype, **kw) if r is None else r
+
+    def full_like(self, a, fill_value, dtype=None, **kw):
+        r = self._like(a, fill_value, dtype, kw.get("shape"))
+        return numpy.full_like(a, fill_value, dtype=dtype, **kw) if r is None else r
+
+
+class TypedNumpy(Conversions):
     """module-global numpy for code under SX whose only need is honest buffers: empty/zeros/ones/full return
     object arrays, truncating when an integer dtype is requested; everything else is real NumPy"""
 
@@ -681,16 +748,6 @@ class TypedNumpy:
 
     def full(self, shape, fill_value, dtype=None, **kw):
         return typed_empty(shape, dtype, fill=fill_value)
-
-    def asarray(self, a, dtype=None, **kw):
-        """a conversion to a float dtype leaves symbols alone, one to an integer dtype truncates them"""
-        if _CUR is not None and isinstance(a, numpy.ndarray) and a.dtype == object:
-            if dtype is None or numpy.dtype(dtype).kind == "f":
-                return a.view(SArr)
-            if numpy.dtype(dtype).kind in "iu":
-                return int_array([strunc(v) for v in a.ravel()]).reshape(a.shape)
-        return numpy.asarray(a, dtype=dtype, **kw)
-
 
 def sarr(data):
     return SArr(data)
